@@ -35,3 +35,28 @@ pub open spec fn parse(s: Seq<u8>) -> Option<Seq<EntryAbs>> decreases s.len() {
 pub open spec fn entries_view(v: Seq<tlv::TlvEntry>) -> Seq<EntryAbs> {
     Seq::new(v.len(), |i: int| EntryAbs { typ: v[i].typ, value: v[i].value@ })
 }
+
+/// BigSize encoding (minimal length) and the encoding of a record sequence
+pub open spec fn be_bytes(x: nat, n: nat) -> Seq<u8> decreases n {
+    if n == 0 { Seq::empty() } else { be_bytes(x / 256, (n - 1) as nat).push((x % 256) as u8) }
+}
+pub open spec fn cs_enc(x: u64) -> Seq<u8> {
+    if x <= 0xFC { seq![x as u8] }
+    else if x <= 0xFFFF { seq![253u8] + be_bytes(x as nat, 2) }
+    else if x <= 0xFFFF_FFFF { seq![254u8] + be_bytes(x as nat, 4) }
+    else { seq![255u8] + be_bytes(x as nat, 8) }
+}
+pub open spec fn enc_entry(e: EntryAbs) -> Seq<u8> { cs_enc(e.typ) + cs_enc(e.value.len() as u64) + e.value }
+pub open spec fn enc_all(es: Seq<EntryAbs>) -> Seq<u8> decreases es.len() {
+    if es.len() == 0 { Seq::empty() } else { enc_all(es.drop_last()) + enc_entry(es.last()) }
+}
+
+/// first record of the given type
+pub open spec fn first_of(es: Seq<EntryAbs>, t: u64) -> Option<EntryAbs> decreases es.len() {
+    if es.len() == 0 { None } else if es[0].typ == t { Some(es[0]) } else { first_of(es.drop_first(), t) }
+}
+/// the records with the first one of type `t` removed; all others byte for byte and in order
+pub open spec fn remove_first(es: Seq<EntryAbs>, t: u64) -> Seq<EntryAbs> decreases es.len() {
+    if es.len() == 0 { es } else if es[0].typ == t { es.drop_first() } else { seq![es[0]] + remove_first(es.drop_first(), t) }
+}
+
